@@ -61,6 +61,13 @@ def extreme_class(ex: Exception):
         return "huge-integer-constant"
     if isinstance(ex, OverflowError):
         return "constant-overflow"
+    if isinstance(ex, MemoryError):
+        # only when it is raised while mpmath materialises a float whose exponent is astronomical (1 << -exponent)
+        tb, last = ex.__traceback__, None
+        while tb is not None:
+            last, tb = tb.tb_frame.f_code, tb.tb_next
+        if last is not None and last.co_name == "to_rational" and "libmp" in last.co_filename:
+            return "constant-overflow"
     if isinstance(ex, NameError) and ("'inf'" in msg or "'nan'" in msg or "'zoo'" in msg):
         return "bare-inf-name"          # repaired (fix d2e732b); not a listed finding any more
     return None
